@@ -508,7 +508,7 @@ pub fn evaluate_preview_with_interrupt(
 		|| result.is_unit_type()
 		|| s.len() > 50
 		|| s.trim() == input.trim()
-		|| s.contains(|c| c < ' ')
+		|| s.contains(|c: char| c.is_control() || c == '\u{2028}' || c == '\u{2029}')
 	{
 		return empty;
 	}
